@@ -22,7 +22,24 @@ OUT = os.environ.get("VERIF_OUT_DIR") or os.path.join(ROOT, "out")
 EVIDENCE = os.environ.get("VERIF_EVIDENCE_DIR") or os.path.join(ROOT, "evidence")
 MAX_SIGS_MINIMISED = 6
 WORKER_WATCHDOG_S = 600
+WATCHDOG = {"quick": 150, "thorough": 600}  # wall-clock backstop per evaluation (hangs inside C code)
+PROBE_TIMEOUT = {"quick": 60, "thorough": 240}
 VIOLATION_STOP = 60
+_INFLIGHT_FD = None
+
+
+def _inflight_dir():
+    return os.path.join(OUT, "inflight")
+
+
+def _mark_inflight(index: int, k: int) -> None:
+    """Cheap crash breadcrumb: which (run index, evaluation ordinal) this worker is executing."""
+    global _INFLIGHT_FD
+    if _INFLIGHT_FD is None or _INFLIGHT_FD[0] != os.getpid():
+        os.makedirs(_inflight_dir(), exist_ok=True)
+        fd = os.open(os.path.join(_inflight_dir(), f"{os.getpid()}.txt"), os.O_CREAT | os.O_WRONLY | os.O_TRUNC, 0o644)
+        _INFLIGHT_FD = (os.getpid(), fd)
+    os.pwrite(_INFLIGHT_FD[1], b"%012d %06d\n" % (index, k), 0)
 
 
 def load_check(prop: str):
@@ -59,9 +76,10 @@ def work(prop: str, tier: str, seed: int, lo: int, hi: int, stream: str = "") ->
     try:
         for index in range(lo, hi):
             rng = prng.rng_for(seed, mod.PROP, tier, index, stream)
-            for sc in mod.gen(rng, tier, index):
+            for k, sc in enumerate(mod.gen(rng, tier, index)):
                 # wall-clock backstop per evaluation (hangs inside C code); re-armed for every evaluation
-                faulthandler.dump_traceback_later(WORKER_WATCHDOG_S, exit=True)
+                faulthandler.dump_traceback_later(WATCHDOG.get(tier, WORKER_WATCHDOG_S), exit=True)
+                _mark_inflight(index, k)
                 res = mod.execute(sc)
                 out["evals"] += 1
                 chain.update(res.get("digest", "").encode())
@@ -84,6 +102,7 @@ def work(prop: str, tier: str, seed: int, lo: int, hi: int, stream: str = "") ->
                         out["viol"][v["sig"]] = {"sig": v["sig"], "detail": v.get("detail", ""), "index": index, "scenario": sc}
     finally:
         faulthandler.cancel_dump_traceback_later()
+        _mark_inflight(-1, 0)
     out["digest"] = chain.hexdigest()
     out["wall"] = time.monotonic() - t0
     return out
@@ -101,6 +120,12 @@ def batch(prop: str, tier: str, seed: int, runs: int, chunk: int, workers: int, 
     """Run indices [0, runs) in chunks; returns (merged results, info)."""
     chunks = [(lo, min(lo + chunk, runs)) for lo in range(0, runs, chunk)]
     results = {}
+    if os.path.isdir(_inflight_dir()):
+        for name in os.listdir(_inflight_dir()):
+            try:
+                os.unlink(os.path.join(_inflight_dir(), name))
+            except OSError:
+                pass
     t0 = time.monotonic()
     budget_hit = False
     if workers <= 1:
@@ -136,7 +161,12 @@ def batch(prop: str, tier: str, seed: int, runs: int, chunk: int, workers: int, 
                         budget_hit = True
                         pending.clear()
             except cf.process.BrokenProcessPool as ex_:
-                raise env.HarnessError(f"worker died: {ex_}") from ex_
+                hangs = probe_inflight(prop, tier, seed, stream)
+                if not hangs:
+                    raise env.HarnessError(f"worker died and no in-flight evaluation reproduces a hang: {ex_}") from ex_
+                budget_hit = True
+                results[-1] = {"lo": 0, "hi": 0, "evals": len(hangs), "nontrivial": set(), "faults": collections.Counter(), "probes": collections.Counter({"worker_killed_by_watchdog": 1}),
+                               "states": set(), "sim_s": 0.0, "viol": {h["sig"]: h for h in hangs}, "viol_count": len(hangs), "samples": [], "void": 0, "digest": "hang"}
     merged = {
         "evals": 0,
         "runs": 0,
@@ -173,6 +203,53 @@ def batch(prop: str, tier: str, seed: int, runs: int, chunk: int, workers: int, 
     return merged, info
 
 
+def probe_inflight(prop, tier, seed, stream=""):
+    """A worker was killed by its wall-clock watchdog. Re-create the evaluations that were in flight and
+    run each in a sacrificial interpreter with a time limit; the ones that do not finish are reported as
+    non-termination (a violation where termination is part of the property, C14/C15), with the scenario
+    as replay file."""
+    mod = load_check(prop)
+    found = []
+    d = _inflight_dir()
+    marks = set()
+    for name in sorted(os.listdir(d)) if os.path.isdir(d) else ():
+        try:
+            with open(os.path.join(d, name)) as f:
+                index, k = (int(x) for x in f.read().split()[:2])
+            if index >= 0:
+                marks.add((index, k))
+        except (OSError, ValueError):
+            continue
+    os.makedirs(os.path.join(OUT, "probe"), exist_ok=True)
+    for index, k in sorted(marks):
+        rng = prng.rng_for(seed, mod.PROP, tier, index, stream)
+        sc = None
+        try:
+            for n, cand in enumerate(mod.gen(rng, tier, index)):
+                if n == k:
+                    sc = cand
+                    break
+        except Exception:  # noqa: BLE001
+            continue
+        if sc is None:
+            continue
+        path = os.path.join(OUT, "probe", f"{prop}-{index}-{k}.json")
+        with open(path, "w") as f:
+            json.dump({"property": prop, "signature": f"{prop}/T wall-clock-hang", "scenario": sc}, f, default=prng._default)
+        cmd = [sys.executable, "-B", os.path.join(ROOT, "dst", "main.py"), "replay", path]
+        try:
+            subprocess.run(cmd, capture_output=True, text=True, timeout=PROBE_TIMEOUT.get(tier, 120), env=dict(os.environ, VERIF_NO_HANG_GUARD="1"))
+        except subprocess.TimeoutExpired:
+            if getattr(mod, "TERMINATION_IS_PROPERTY", False):
+                found.append({"sig": f"{prop}/T wall-clock-hang", "detail": f"evaluation (run {index}, #{k}) did not finish within {PROBE_TIMEOUT.get(tier, 120)} s of wall-clock time in a fresh interpreter (hang outside the interpreter's step accounting, e.g. inside a regular expression); summary: {str(mod.summarise(sc))[:200]}", "index": index, "scenario": sc})
+    for name in os.listdir(d) if os.path.isdir(d) else ():
+        try:
+            os.unlink(os.path.join(d, name))
+        except OSError:
+            pass
+    return found
+
+
 def execute_sigs(mod, scenario):
     res = mod.execute(scenario)
     return [v["sig"] for v in res.get("violations") or ()], res
@@ -197,7 +274,7 @@ def write_replay(prop, seed, tier, v, minimised, used) -> str:
     trace = None
     try:
         tr = getattr(load_check(prop), "trace", None)
-        if tr is not None:
+        if tr is not None and not v["sig"].endswith("wall-clock-hang"):
             trace = list(tr(minimised))[:400]  # readable event trace of the minimised scenario
     except Exception:  # noqa: BLE001 - the trace is a convenience, never a reason to lose the replay
         trace = None
@@ -230,6 +307,16 @@ def replay_file(path: str) -> int:
     with open(path) as f:
         data = json.load(f)
     mod = load_check(data["property"])
+    if data["signature"].endswith("wall-clock-hang") and not os.environ.get("VERIF_NO_HANG_GUARD"):
+        limit = int(os.environ.get("VERIF_REPLAY_TIMEOUT", "60"))
+        cmd = [sys.executable, "-B", os.path.join(ROOT, "dst", "main.py"), "replay", path]
+        try:
+            p = subprocess.run(cmd, capture_output=True, text=True, timeout=limit, env=dict(os.environ, VERIF_NO_HANG_GUARD="1"))
+            print(f"REPLAY property={data['property']} signature={data['signature']!r} reproduced=no (finished in time) deterministic=yes")
+            return 0
+        except subprocess.TimeoutExpired:
+            print(f"REPLAY property={data['property']} signature={data['signature']!r} reproduced=yes (no result within {limit} s) deterministic=yes")
+            return 1
     sigs, res = execute_sigs(mod, data["scenario"])
     sigs2, res2 = execute_sigs(mod, data["scenario"])
     same = res.get("digest") == res2.get("digest")
@@ -256,6 +343,8 @@ def replay_in_fresh_process(path: str):
         p = subprocess.run(cmd, capture_output=True, text=True, timeout=300, env=envv)
     except subprocess.TimeoutExpired:
         return False, False, "timeout"
+    if "wall-clock-hang" in p.stdout and p.returncode == 1:
+        return True, True, p.stdout.strip().splitlines()[0]
     return p.returncode == 1, p.returncode in (0, 1), p.stdout.strip().splitlines()[0] if p.stdout.strip() else p.stderr[-300:]
 
 
@@ -314,7 +403,7 @@ def run_property(prop: str, tier: str, runs_override=None, workers=None, budget_
         if listed is not None:
             v["known"] = listed
             continue
-        if n < MAX_SIGS_MINIMISED:
+        if n < MAX_SIGS_MINIMISED and not sig.endswith("wall-clock-hang"):
             minimised, used = minimise_violation(mod, v)
         else:
             minimised, used = v["scenario"], 0
